@@ -30,64 +30,6 @@ ARITH = ["add", "subtract", "multiply", "divide", "power", "negative", "reciproc
 # --------------------------------------------------------------------------------------
 # Array._wrap_numpy against its spec (the function every operator funnels through)
 # --------------------------------------------------------------------------------------
-def check_wrap_numpy(fname, kinds, shapes, same_unit=True, out=False, exponent=None):
-    Array = O().Array
-    f = getattr(snp, fname)
-    dims = A.Dims()
-    ua = spint.sym_unit("ua")
-    ops = []
-    clones = []
-    for j, (k, sh) in enumerate(zip(kinds, shapes)):
-        name = "ab"[j]
-        if fname == "power" and j == 1:
-            x = exponent
-        elif k == "Array":
-            u = ua if (j == 0 or (same_unit and fname in A.SAME + A.PREDICATE)) else spint.sym_unit("ub")
-            x = A.mk_array(name, dims, sh, unit=u)
-        else:
-            x = A.mk_operand(k, name, dims, sh)
-        ops.append(x)
-        clones.append(clone(x))
-    self_ = next(o for o in ops if isinstance(o, Array))
-    cself = next(o for o in clones if isinstance(o, Array))
-    kw, ckw = {}, {}
-    if out:
-        kw["out"] = (self_,)
-        ckw["out"] = (cself,)
-    try:
-        want = A.wrap_numpy_spec(cself, f, *clones, **ckw)
-        want_exc = None
-    except (TypeError, ValueError, spint.DimensionalityError) as e:
-        want, want_exc = None, e
-    try:
-        got = self_._wrap_numpy(f, *ops, **kw)
-        got_exc = None
-    except (TypeError, ValueError, spint.DimensionalityError) as e:
-        got, got_exc = None, e
-    if want_exc is not None or got_exc is not None:
-        prove("raises_as_spec", type(want_exc) is type(got_exc))
-        return
-    if out:
-        prove("out.same_object", got is self_)
-    else:
-        prove("fresh_object", all(got is not o for o in ops))
-    A.equiv_arrays("spec", got, want)
-
-
-def clone(x):
-    Array = O().Array
-    if isinstance(x, Array):
-        c = Array(values=x._array.copy(), unit=x._unit)
-        c.name = x.name
-        return c
-    if isinstance(x, snp.ndarray):
-        return x.copy()
-    if isinstance(x, spint.Quantity):
-        m = x.magnitude
-        return spint.Quantity(m.copy() if isinstance(m, snp.ndarray) else m, x.units)
-    return x
-
-
 _WN_CASES = []
 for _f in ARITH:
     if _f in ("negative", "reciprocal"):
@@ -106,7 +48,17 @@ for _f in ARITH:
 @unit("C02", "_wrap_numpy", targets=[T_WN], cases=_WN_CASES, replay=N.replay_wrap_numpy,
       inline=["Array._maybe_array", "Array._extract_*", "Array._maybe_unit", "Array.__init__", "Array.unit"])
 def wn(case):
-    check_wrap_numpy(case["f"], case["kinds"], case["shapes"], exponent=case.get("k"))
+    f = case["f"]
+    if f == "power":
+        spec = [("Array", "1d", "a"), ("const:%s" % case["k"], "0d", None)]
+    elif len(case["kinds"]) == 1:
+        spec = [("Array", case["shapes"][0], "a")]
+    else:
+        # the operators always hand _wrap_numpy an rhs already converted to the lhs unit for
+        # add/subtract; multiply/divide take arbitrary unit pairs
+        tagb = "a" if f in A.SAME else "b"
+        spec = [("Array", case["shapes"][0], "a"), ("Array", case["shapes"][1], tagb)]
+    A.check_wrap_numpy(f, spec)
 
 
 # --------------------------------------------------------------------------------------
